@@ -1,6 +1,7 @@
 #![allow(dead_code)]
 mod c01;
 mod c02;
+mod c03;
 mod c04;
 mod c05;
 mod c08;
@@ -65,6 +66,13 @@ fn props() -> Vec<Prop> {
         thorough_cases: 400,
         gen: c02::gen_case,
         run: c02::run_case,
+    }, Prop {
+        id: "C03",
+        rule: "case = (grammar: hand-written families / random Lark / random productive CFG / random JSON schema with numeric ranges, multipleOf, length bounds, patterns, formats, allOf intersections / random regex; byte-complete vocabulary: single-byte or synthetic multi-byte; seeded walks through mask-allowed tokens); at every state: accepting or non-empty mask, no stop in a non-accepting state, every allowed token commits; at every third state a completion to an accepting state is searched (depth 48, node budget); exhausted search = dead end; distinct non-trivial = distinct grammars walked without compile error",
+        quick_cases: 40,
+        thorough_cases: 400,
+        gen: c03::gen_case,
+        run: c03::run_case,
     }, Prop {
         id: "C04",
         rule: "case = random regex AST (classes, negated classes, '.', bounded/unbounded repetition, alternation, (?i), non-ASCII literals; & and ~ in Lark terminal form) in one of three concrete syntaxes; byte strings exhaustive up to length maxlen over <= 6 bytes taken from sampled members plus 'a','b','\\n',0xC3, plus members and their mutations; then 6 mask states over a synthetic multi-byte vocabulary with every token checked; distinct non-trivial = distinct (regex, syntax form) for which both accepted and rejected strings occurred",
